@@ -30,6 +30,15 @@ def oracle(kinds, explicit):
 def build(lines, explicit, entry):
     if entry == "init":
         g = gfapy.Gfa(lines, version=explicit, vlevel=1) if explicit else gfapy.Gfa(lines, vlevel=1)
+    elif entry == "file":
+        import tempfile, os
+        fd, path = tempfile.mkstemp(suffix=".gfa")
+        try:
+            with os.fdopen(fd, "w") as fh:
+                fh.write("\n".join(lines) + "\n")
+            g = gfapy.Gfa.from_file(path, version=explicit, vlevel=1) if explicit else gfapy.Gfa.from_file(path, vlevel=1)
+        finally:
+            os.unlink(path)
     else:
         g = gfapy.Gfa(version=explicit, vlevel=1) if explicit else gfapy.Gfa(vlevel=1)
         for l in lines:
@@ -45,7 +54,7 @@ def check(case):
     outcomes = {}
     for perm in itertools.permutations(kinds):
         lines = [KIND[k] for k in perm]
-        for entry in ("add",):
+        for entry in ("add", "init", "file"):
             try:
                 g = build(lines, explicit, entry)
                 out = g.version
@@ -57,11 +66,15 @@ def check(case):
                 out = "VersionError"
             except gfapy.Error as e:
                 out = "Error:" + type(e).__name__
+                if entry != "add":
+                    continue          # Gfa(list) / from_file also validate the references of the document: not a statement about the version
             except Exception as e:
                 out = "Foreign:" + type(e).__name__
+            if want is None and entry != "add":
+                continue              # version-neutral document: the entry points differ in when the default is applied (not pinned)
             outcomes.setdefault(out, lines)
     if len(outcomes) > 1:
-        fails.append(dict(signature="C13:order-dependent:%s" % "/".join(sorted(outcomes)), what=str({k: v for k, v in outcomes.items()})[:600], case=dict(kinds=list(kinds), explicit=explicit),
+        fails.append(dict(signature="C13:order-dependent:%s" % "/".join(sorted(map(str, outcomes))), what=str({k: v for k, v in outcomes.items()})[:600], case=dict(kinds=list(kinds), explicit=explicit),
                           reproducer="import gfapy\nfor lines in %r:\n    try:\n        g = gfapy.Gfa(vlevel=1)\n        [g.add_line(l) for l in lines]; g.process_line_queue(); print(g.version)\n    except Exception as e: print(type(e).__name__)" % (list(outcomes.values()),)))
     elif want is not None:
         got = next(iter(outcomes))
@@ -87,6 +100,6 @@ if __name__ == "__main__":
     res = harness.run(cs, check,
                       rule="every set of <=%d of the %d line kinds (headers without/with VN 1.0/2.0/3.0, GFA1/GFA2 segment syntax, L C P, E G F O U, comment) x explicit version None/gfa1/gfa2, "
                            "in ALL orders of its lines (added one by one, then process_line_queue); oracle: version = function of the set of kinds, VersionError iff GFA1 and GFA2 evidence are mixed or the VN is unknown; "
-                           "every order must give the same outcome; every line is in the Gfa exactly once. one evaluation = one set with all its orders" % (3 if tier == "quick" else 4, len(KIND)),
+                           "every order and every entry point (add_line one by one, Gfa(list), Gfa.from_file) must give the same outcome; every line is in the Gfa exactly once. one evaluation = one set with all its orders" % (3 if tier == "quick" else 4, len(KIND)),
                       bound="sets of <=%d kinds, all permutations" % (3 if tier == "quick" else 4), exhaustive=True)
     harness.emit(res)
